@@ -132,6 +132,10 @@ class G:
     def make_def(self, idx, ndefs, nested_level=0):
         r = self.r
         d = {"name": "d%d" % idx if nested_level == 0 else "n%d_%d" % (idx, self.uid()), "sig": self.sig()}
+        if nested_level == 1 and idx + 1 < ndefs and r.random() < 0.12:
+            # a nested def named like a top-level def that comes later: inside its enclosing def the name means the
+            # nested one (calls written for the top-level signature then bind, or fail to bind, to the nested one's)
+            d["name"] = "d%d" % r.randrange(idx + 1, ndefs)
         if nested_level == 1 and r.random() < 0.35:
             # a nested def whose default reads a context variable that the enclosing def mentions nowhere else (the
             # default is evaluated in the enclosing def when the nested def is defined)
@@ -157,7 +161,7 @@ class G:
             later = defs[i + 1:]
             avail = [p for p, k, _ in d["sig"] if k in ("pos", "default", "cdefault", "kwonly")] + ["x", "y"]
             for nd in d["nested"]:
-                nd["body"] = self.nodes(1, later, avail + [p for p, k, _ in nd["sig"] if k in ("pos", "default", "cdefault", "kwonly")], None, nd, simple=True)
+                nd["body"] = self.nodes(1, [x_ for x_ in later if x_["name"] != nd["name"]], avail + [p for p, k, _ in nd["sig"] if k in ("pos", "default", "cdefault", "kwonly")], None, nd, simple=True)
             d["body"] = self.nodes(1, later, avail, d, d)
 
     def nodes(self, depth, callable_defs, avail, in_def, owner, simple=False):
@@ -289,10 +293,25 @@ def run_doc(doc, res, rc, bf):
         res.count("argument_errors_matched")
     if not ok:
         fid = None
+        if any_bare_star(doc):
+            # recogniser: the interpreter in which a signature loses its bare '*' (keyword-only parameters can then
+            # be filled positionally) reproduces Mako's result exactly
+            tdoc.DROP_BARE_STAR = True
+            try:
+                try:
+                    mq = tdoc.Model(doc, CTX, buffer_filters=bf)
+                    mq.max_steps = 400000  # (calls that bind after all make the document run much longer)
+                    expq = mq.render()
+                except (Exception, tdoc.TooLarge):
+                    expq = None
+            finally:
+                tdoc.DROP_BARE_STAR = False
+            if expq is not None and got[0] == expq[0] and (got[1] == expq[1] if got[0] == "out" else type(got[1]).__name__ == type(expq[1]).__name__):
+                fid = "C05/bare-star-dropped"
         res.violate(
             "def-semantics",
             "template\n%s\nrendered %r\nexpected %r" % (text[len(tdoc.MODULE_BLOCK):], short(got), short(exp)),
-            finding=fid, replay_case=rc,
+            finding=fid, witness="<%def name=\"d(q='dq', *, ko)\">: SyntaxError from the generated module" if fid else None, replay_case=rc,
         )
     ev = m.events
     if "ccall" in ev:
@@ -307,6 +326,15 @@ def run_doc(doc, res, rc, bf):
 
 def short(x):
     return (x[0], x[1] if isinstance(x[1], str) else "%s: %s" % (type(x[1]).__name__, x[1]))
+
+
+def any_bare_star(doc):
+    """some def (nested ones included) declares keyword-only parameters after a bare '*'"""
+    def bare(d):
+        kinds = [k for _, k, _ in d["sig"]]
+        return ("kwonly" in kinds and "varargs" not in kinds) or any(bare(nd) for nd in d.get("nested", []))
+
+    return any(bare(d) for d in doc["defs"])
 
 
 def has_bare_star_shape(doc):
